@@ -233,7 +233,7 @@ def check(tier):
         "trusted_base": vlib.TRUSTED_BASE_COMMON + [
             "modelled: Template.hpp render* functions as TmplRender.v (offset/slice renderer over a tag tree); abstractions: paths/expressions kept as AST inside tags, loop items found by name instead of by level",
             "NOT modelled (correspondence only): Template.hpp parse() / Finder -- the C++ parses the printed text of each generated AST and its output is compared with the extracted reference interpreter",
-            "expression fragment: exact integers, one operator per parenthesis level (precedence is C04's subject); reals only as multiples of 0.25"],
+            "expression fragment: exact integers, one operator per parenthesis level (precedence is C04's subject); reals: arbitrary finite doubles as values (bit pattern from the model of Digit::StringToNumber, text from the model of Digit::NumberToString at the template's precision/format; GroupBy names with the default format), not inside expressions"],
         "theorems": [{"name": a, "assumptions": b} for a, b in theorems],
         "evaluations": len(cases),
         "distinct_nontrivial": len({c.a + "#" + c.v for c in cases if nontrivial(c)}),
